@@ -19,6 +19,19 @@ const (
 	fwhtBox = 2047
 )
 
+// Per-position box of the coefficients the encoder reconstructs from
+// (coq/theories/Arch/ArchEncRange.v: encB); proved to lie in the no-wrap region.
+var encBox = [16]int{2655, 2174, 2332, 2182, 2174, 2035, 2182, 2039, 2332, 2182, 2336, 2182, 2181, 2039, 2181, 2039}
+
+func inEncBox(a []int16) bool {
+	for i, v := range a {
+		if b := encBox[i%16]; int(v) > b || int(v) < -b {
+			return false
+		}
+	}
+	return true
+}
+
 type impls struct {
 	port webp.VerifArchKernels
 	all  []webp.VerifArchKernels // dispatched first, then sse2 / avx2 when available
@@ -157,6 +170,17 @@ func (k *kctx) coeffs(class string, box int) (out [16]int16) {
 		for i := range out {
 			out[i] = v
 		}
+	case "enc-box-corner":
+		for i := range out {
+			out[i] = int16(encBox[i])
+			if r.Bool() {
+				out[i] = -out[i]
+			}
+		}
+	case "enc-box-rand":
+		for i := range out {
+			out[i] = int16(r.Range(-encBox[i], encBox[i]))
+		}
 	case "typical":
 		for i := range out {
 			m := 2048 >> uint(r.Intn(12))
@@ -257,7 +281,7 @@ func (k *kctx) idct(class, pclass string, nblk int) {
 		cs := k.coeffs(class, idctBox)
 		copy(in[16*b:], cs[:])
 	}
-	box := inBox(in, idctBox)
+	box := inBox(in, idctBox) || inEncBox(in)
 	base := k.bytesOf(pclass, 8*bps+16)
 	blockOff := []int{0, 4, 4 * bps, 4*bps + 4}
 	replay := map[string]any{"kernel": "idct", "blocks": nblk, "coeffs": append([]int16(nil), in...), "pred_class": pclass, "dst": append([]byte(nil), base...)}
@@ -574,6 +598,18 @@ func (k *kctx) pred(class string) {
 		m := m
 		f16, w16 := cmp("PredLuma16-"+modes[m], func(v *webp.VerifArchKernels, buf []byte) { v.PredLuma16[m](buf, off) })
 		f8, w8 := cmp("PredChroma8-"+modes[m], func(v *webp.VerifArchKernels, buf []byte) { v.PredChroma8[m](buf, off) })
+		if m == 0 && f16 != nil && f8 != nil {
+			top16, top8 := base[off-bps:off-bps+16], base[off-bps:off-bps+8]
+			left := make([]byte, 16)
+			for j := range left {
+				left[j] = base[off-1+j*bps]
+			}
+			k.c.Case("dc16 "+intsB(top16)+" "+intsB(left), fmt.Sprint(f16[off+5+3*bps]))
+			k.c.Case("pdc16 "+intsB(top16)+" "+intsB(left), fmt.Sprint(w16[off+5+3*bps]))
+			k.c.Case("dc8 "+intsB(top8)+" "+intsB(left[:8]), fmt.Sprint(f8[off+2+6*bps]))
+			k.c.Case("pdc8 "+intsB(top8)+" "+intsB(left[:8]), fmt.Sprint(w8[off+2+6*bps]))
+			k.n += 4
+		}
 		if m == 1 && f16 != nil && f8 != nil {
 			tl := base[off-1-bps]
 			for s := 0; s < 6; s++ {
@@ -948,6 +984,11 @@ func (k *kctx) quant(class string) {
 				map[string]any{"levels": lv, "Quant": sq.Quant, "DCQuant": sq.DCQuant, "portable": dw, "dispatched": dg})
 		}
 		k.sig("DequantCoeffs", class, dw == dg)
+		n := 1 + r.Intn(15)
+		k.c.Case(fmt.Sprintf("deq %d %d", lv[n], sq.Quant), fmt.Sprint(dg[n]))
+		k.c.Case(fmt.Sprintf("deqdc %d %d", lv[0], sq.DCQuant), fmt.Sprint(dg[0]))
+		k.c.Case(fmt.Sprintf("pdeq %d %d", lv[n], sq.Quant), fmt.Sprint(dw[n]))
+		k.n += 3
 	}
 }
 
@@ -969,7 +1010,7 @@ func kernels(c *Ctx) {
 	// fixed witnesses of the _refuted theorems first
 	k.witnesses()
 
-	idctClasses := []string{"sparse", "box-rand", "box-corner", "box-same-sign", "typical", "box-corner+1", "box+1-same-sign", "int16-rand", "int16-extreme", "int16-max", "int16-min", "reachable"}
+	idctClasses := []string{"sparse", "enc-box-corner", "enc-box-rand", "box-rand", "box-corner", "box-same-sign", "typical", "box-corner+1", "box+1-same-sign", "int16-rand", "int16-extreme", "int16-max", "int16-min", "reachable"}
 	predClasses := []string{"rand", "zero", "max", "mid", "extreme"}
 	for rep := 0; rep < 12*scale; rep++ {
 		for _, cl := range idctClasses {
